@@ -44,4 +44,5 @@ for n in names:
         subprocess.run(["git", "-C", "/repo", "worktree", "remove", "--force", wt], stdout=subprocess.DEVNULL, stderr=subprocess.DEVNULL)
 # leave Gen files as /repo itself defines them
 subprocess.run([os.path.join(root, ".build", "bin", "extract"), "-repo", "/repo", "-out", os.path.join(root, "lean", "ScionTime", "Gen")], stdout=subprocess.DEVNULL)
+shutil.rmtree(os.path.join(root, ".build", "run"), ignore_errors=True)  # run directories kept by violating runs
 for s in summary: print(*s)
